@@ -9,7 +9,8 @@ VERIF = os.path.dirname(os.path.dirname(os.path.abspath(__file__)))
 def main():
     print("| seed | what was changed | needs | detected by |")
     print("|---|---|---|---|")
-    for d in sorted(glob.glob(os.path.join(VERIF, "seeded", "*"))):
+    for d in sorted(glob.glob(os.path.join(VERIF, "seeded", "*", ""))):
+        d = d.rstrip("/")
         m = json.load(open(os.path.join(d, "meta.json")))
         det = m.get("detected_by", {})
         hit = sorted(k for k, v in det.items() if v)
